@@ -1,5 +1,6 @@
 mod c02t;
 mod c03;
+mod semi;
 mod c06t;
 mod c04;
 mod c05;
